@@ -18,6 +18,8 @@ def line_output(prompt, cont, l):
         return 'see ' + prompt + '!' + CRLF
     if c == 'q':
         return 'see ' + cont + '!' + CRLF
+    if c == 'w':
+        return ''                                   # w: a slow line without output (the real child sleeps before answering)
     if c == 'r' and ',' in payload and payload.split(',', 1)[0].isdigit():      # r<count>,<text>: only in the real child (not in the Coq family)
         n, t = payload.split(',', 1)
         return t * int(n) + CRLF
